@@ -1,3 +1,4 @@
+import LibconfigModel.Generated.Constants
 import LibconfigModel.Step
 import LibconfigModel.Proofs.C09
 /-
@@ -127,5 +128,10 @@ records, same attributes -/
 def stale : Config := { root := { ty := T_GROUP, kids := [{ name := some [97], ty := T_INT }] },
                         errType := ERR_PARSE, errText := some [120], errLine := 7 }
 example : attrs stale = attrs Config.init := by rfl
+
+/-- Bridge: error type codes and the I/O error text of this run's sources -/
+theorem C09_constants :
+    Generated.CONFIG_ERR_NONE = ERR_NONE ∧ Generated.CONFIG_ERR_FILE_IO = ERR_FILE_IO ∧ Generated.CONFIG_ERR_PARSE = ERR_PARSE ∧
+    Generated.IO_ERROR_TEXT = [102, 105, 108, 101, 32, 73, 47, 79, 32, 101, 114, 114, 111, 114] := by decide
 
 end Libconfig.C09
